@@ -270,7 +270,11 @@ class SpecMixin:
             if not isinstance(lam, ast.Lambda):
                 raise Unsupported("forall/exists need a lambda")
             names = [a.arg for a in lam.args.args]
-            ks = [z3.Int(fresh_name(n)) for n in names]
+            # binder names are deterministic (name + nesting depth): the same clause evaluated twice in the same state is the
+            # same term, so a goal that literally is a hypothesis is recognised without a solver (binders are abstracted
+            # at once by ForAll/Exists, inner ones first, so equal names at different depths cannot capture each other)
+            depth = len(getattr(se, "bound", ()))
+            ks = [z3.Int("%s!q%d" % (n, depth + i)) for i, n in enumerate(names)]
             s2 = SpecEnv(se.st, dict(se.env), self, se.ctx, se.old)
             s2.bound = tuple(getattr(se, "bound", ())) + tuple(names)
             for n, kv in zip(names, ks):
